@@ -46,6 +46,11 @@ META["C20"] = dict(
     note="Trusted: Lean kernel; the hand-written model of UPSC_Generator.go, tied by running identical histories through the real allocator and the model on every run; oracle evaluates the property on the real allocator with an abstract live set.",
     technique="Lean 4 proof (invariant by induction over operation histories on a hand model) + Go/Lean correspondence on histories")
 
+META["C16"] = dict(
+    text="Kernel-checked on the hand model: PSI bitmap <-> 16-boolean array is the identity in both directions for all 65 536 values (proved per octet: `decide` over 256 values / 8 booleans, lifted structurally); Marshal starts with 0x80 and UnMarshal(Marshal l) = l for every unit list with LengthOfContents = |Contents| (induction over the list); UnMarshal never panics on any bytes and every unit it yields is a contiguous part of the input at the position its identifier/length octets dictate.",
+    note="Trusted: Lean kernel; the hand model (tied by correspondence incl. the exhaustive bitmap sweep each run); net.IP-based Add* builders not modelled.",
+    technique="Lean 4 proof on a hand model (list induction + finite decide) + Go/Lean correspondence incl. exhaustive 2^16 sweep")
+
 NOT_APPLICABLE = {
  "C01": "check not built yet in this round (Lean model + correspondence planned, see DESIGN.md section 4); not claimed until it runs",
  "C02": "check not built yet in this round (Lean model + correspondence planned, see DESIGN.md section 4); not claimed until it runs",
